@@ -29,6 +29,7 @@ type e1Step struct {
 	Frac int   `json:"frac,omitempty"` // snap: which part of the node's log copy shall be older than the horizon (0..100, 101 = everything and more, -1 = use the clock)
 	Fail int   `json:"fail,omitempty"` // snap: sink fails after this many bytes (0 = no failure)
 	Skip bool  `json:"skip,omitempty"` // snap: crash between Snapshot() and Persist (combined with a later restart)
+	Mid  int   `json:"mid,omitempty"`  // snap: entries the node applies between Snapshot() and Persist
 	// captcha minted at execution time for the acting session
 	Captcha string `json:"captcha,omitempty"` // "", "ok", "old", "mut", "wrongpurpose"
 	// Svc: the line is drawn from the services grammar; it is only sent if the session it resolves to is an
@@ -582,6 +583,9 @@ func (e1Engine) Generate(seed uint64, prop, tier string) (json.RawMessage, error
 			}
 			if g.Chance(1, 12) {
 				st.Skip = true
+			}
+			if g.Chance(1, 4) {
+				st.Mid = g.Range(1, 6)
 			}
 			add(st)
 		case r < 960:
